@@ -273,6 +273,16 @@ func CheckCase(c Case) *ev.Violation {
 				if strings.Contains(op.Form, "flip") {
 					s = flip(p)
 				}
+				if op.Form == "tt." {
+					// after "texttable." a sub-package name is a decoration name like any other: known only if registered
+					n := p
+					if len(op.Trail)%2 == 1 {
+						n = flip(p)
+					}
+					known := decoration.Named(n) != decoration.EmptyDecoration
+					v = resolve("texttable."+n, "texttable", n, true, !known)
+					break
+				}
 				if op.Form == "pad" {
 					// blanks are part of a name: a padded sub-package name is no sub-package name (and nobody registered it)
 					s = []string{" " + p, p + " ", "\t" + p, p + "\n", " " + p + " "}[len(op.Trail)%5]
